@@ -221,7 +221,11 @@ func MutateOne(r *rand.Rand, prev Op) (Op, string) {
 		}
 	case "runtime":
 		if cp.Runtime == "" {
-			cp.Runtime = gen.Pick(r, []string{"machine", "experimental-interpreter"})
+			// "machine" only: when the first write did not commit on the ledger at hand (import
+			// variants, fault prefixes) the re-send runs for real, and only the machine runtime
+			// goes through the recording parser the model takes its oracle from
+			_ = r.Intn(2)
+			cp.Runtime = "machine"
 		} else {
 			cp.Runtime = ""
 		}
